@@ -24,3 +24,53 @@ fn c04_gcc_block_header() {
     kani::cover!(len == 65531, "max");
     forget(r); forget(h);
 }
+
+/// C04: client security data: 8 bytes
+#[kani::proof]
+#[kani::unwind(12)]
+#[kani::stub(std::collections::hash_map::RandomState::new, fixed_random_state)]
+fn c04_gcc_security_data() {
+    let d = client_security_data();
+    let mut w = FixedWriter::<16>::new();
+    let r = d.write(&mut w);
+    assert!(r.is_ok() && w.len == 8 && d.length() == 8, "TS_UD_CS_SEC is 8 bytes");
+    assert!(w.out[0] == 0x0B && w.out[1] == 0 && w.out[2] == 0 && w.out[3] == 0, "40|56|128-bit methods");
+    assert!(w.out[4] == 0 && w.out[5] == 0 && w.out[6] == 0 && w.out[7] == 0, "extEncryptionMethods 0");
+    kani::cover!(true, "done");
+    forget(r); forget(d);
+}
+
+/// C04: client core data: fixed 212-byte layout; clientName is 16 UTF-16 units
+/// (32 bytes) and NUL terminated for every name of up to 2 arbitrary Unicode
+/// scalars appended to a concrete prefix of PFX ASCII characters
+macro_rules! core_data {
+    ($name:ident, $pfx:expr, $nsym:expr) => {
+        #[kani::proof]
+        #[kani::unwind(40)]
+        #[kani::stub(std::collections::hash_map::RandomState::new, fixed_random_state)]
+        fn $name() {
+            let mut name = String::new();
+            let mut i = 0;
+            while i < $pfx { name.push('a'); i += 1; }
+            let mut k = 0;
+            while k < $nsym { let c: char = kani::any(); name.push(c); k += 1; }
+            let w16: u16 = kani::any(); let h16: u16 = kani::any(); let proto: u32 = kani::any();
+            let d = client_core_data(Some(ClientData { width: w16, height: h16, layout: KeyboardLayout::French, server_selected_protocol: proto, rdp_version: Version::RdpVersion5plus, name }));
+            let mut w = FixedWriter::<256>::new();
+            let r = d.write(&mut w);
+            assert!(r.is_ok() && !w.overflow, "written");
+            assert!(w.len == 212 && d.length() == 212, "TS_UD_CS_CORE body is 212 bytes (216 with its header)");
+            assert!(w.out[0] == 4 && w.out[1] == 0 && w.out[2] == 8 && w.out[3] == 0, "version 0x00080004");
+            assert!((w.out[4] as u16 | (w.out[5] as u16) << 8) == w16 && (w.out[6] as u16 | (w.out[7] as u16) << 8) == h16, "desktop size");
+            // clientName occupies bytes 24..56; the last UTF-16 unit must be the NUL terminator
+            assert!(w.out[54] == 0 && w.out[55] == 0, "clientName is NUL terminated within its 32 bytes");
+            assert!(w.out[56] == 4 && w.out[57] == 0, "keyboardType follows clientName at offset 56");
+            assert!((w.out[208] as u32 | (w.out[209] as u32) << 8 | (w.out[210] as u32) << 16 | (w.out[211] as u32) << 24) == proto, "serverSelectedProtocol is the last field");
+            kani::cover!(true, "done");
+            forget(r); forget(d);
+        }
+    };
+}
+core_data!(c04_gcc_core_data_short, 0, 2);
+core_data!(c04_gcc_core_data_boundary, 15, 1);
+core_data!(c04_gcc_core_data_long, 16, 1);
